@@ -109,3 +109,27 @@ Definition session (ns : coll) (i : init_args) (bodies : list (nat * list op))
                               | Some b => snd b | None => [] end)
                     (session_calls reqs dflt dedupe_on) envs)
   end.
+
+(** Several [execute()] calls on one Executor: the Config object is the
+    Executor's, so the session simply goes on; expansion and deduplication are
+    per call of [execute].  [split] = 0: one call with all requests;
+    otherwise [execute(first split requests)] then [execute(the rest)]. *)
+Definition session_calls_split (reqs : list (string * scall)) (dflt : option scall) (dedupe_on : bool)
+           (split : nat) : list ecall :=
+  match split with
+  | O => session_calls reqs dflt dedupe_on
+  | _ => session_calls (firstn split reqs) dflt dedupe_on ++
+         session_calls (skipn split reqs) dflt dedupe_on
+  end.
+
+Definition session_split (ns : coll) (i : init_args) (bodies : list (nat * list op))
+           (reqs : list (string * scall)) (dflt : option scall) (dedupe_on : bool)
+           (envs : list env) (split : nat) : result (list brecord * option err) :=
+  match start [] i with
+  | Err e => Err e
+  | Ok c0 =>
+      Ok (run_calls [] ns c0
+                    (fun t => match find (fun b => Nat.eqb (fst b) t) bodies with
+                              | Some b => snd b | None => [] end)
+                    (session_calls_split reqs dflt dedupe_on split) envs)
+  end.
